@@ -97,6 +97,14 @@ Record hostent := mkHost { h_lat : Z; h_ec : Z; h_addrs : list addr }.
 Inductive rname := RLit (a : addr) | RHost (id : Z).
 
 (* script-level operations: the public API, one to one *)
+(* sim::http_server: what a registered path answers *)
+Inductive hresp := HFixed (len seed : Z) | HRedirect (target : list Z) | HContent (size seed : Z).
+Record http := mkHttp {
+  hs_node : Z; hs_buf : list Z; hs_bufsize : Z; hs_close : bool; hs_keep : bool;
+  hs_handlers : list (list Z * hresp); hs_stall : list (list Z)
+}.
+#[export] Instance eta_http : Settable _ := settable! mkHttp <hs_node; hs_buf; hs_bufsize; hs_close; hs_keep; hs_handlers; hs_stall>.
+
 Inductive uop :=
 | UPost (h : Z)
 | UExpiresAt (i : Z) (e : Z)
@@ -143,7 +151,13 @@ Inductive uop :=
 | UResolve (r : Z) (n : rname) (port : Z) (h : Z)
 | URslvCancel (r : Z)
 | UPcapOn
-| USetNextPort (n : Z).                 (* verification hook: simulation::verif_set_next_bind_port *)
+| USetNextPort (n : Z)
+| UHttpNew (srv node port : Z) (keep : bool)
+| UHttpHandler (srv : Z) (path : list Z) (r : hresp)
+| UHttpStall (srv : Z) (path : list Z)
+| UHttpStop (srv : Z)
+| UTcpWriteBytes (s : Z) (data : list Z) (h : Z)
+| UTcpReadRaw (s bufsize h : Z) (loop : bool).     (* loop: re-issued after every successful completion *)                    (* async_read_some whose handler also reports the bytes *)   (* async_write_some of explicit bytes *)                 (* verification hook: simulation::verif_set_next_bind_port *)
 
 (* state of the two composed operations the harness offers (one per socket) *)
 Record wall := mkWall { wa_rest : list Z; wa_done : Z; wa_chunk : Z; wa_h : Z }.
@@ -160,12 +174,14 @@ Record net := mkNet {
   w_tcps : zmap tcp; w_udps : zmap udp; w_chans : zmap chan; w_next_chan : Z;
   w_rslv : zmap rslv;
   w_pcap : option (list cap);
-  w_wall : zmap wall; w_rall : zmap rall
+  w_wall : zmap wall; w_rall : zmap rall;
+  w_http : zmap http;
+  w_deadfwd : list Z        (* forwarders whose socket object has been destroyed *)
 }.
 #[export] Instance eta_net : Settable _ :=
   settable! mkNet <w_sinks; w_next_sink; w_handlers; w_nodes; w_in; w_out; w_route; w_mtu; w_mtus; w_hosts;
                    w_tcp_reg; w_udp_reg; w_next_port; w_tcps; w_udps; w_chans; w_next_chan; w_rslv; w_pcap;
-                   w_wall; w_rall>.
+                   w_wall; w_rall; w_http; w_deadfwd>.
 
 Definition set_sink (w : net) (i : Z) (s : sink) : net := w <| w_sinks := mset (w_sinks w) i s |>.
 
@@ -291,6 +307,8 @@ Definition unbind_udp (w : net) (sock : Z) (e : endpoint) : net :=
   end.
 
 (* a fresh sink_forwarder pointing at the socket *)
+Definition fwd_of (t : tcp) : Z := match t_fwd t with Some f => f | None => -1 end.
+
 Definition new_fwd (w : net) (tgt : objref) : Z * net :=
   let i := w_next_sink w in
   (i, set_sink (w <| w_next_sink := i + 1 |>) i (SFwd (Some tgt))).
